@@ -18,23 +18,10 @@ import typing as T
 from . import common
 from .common import Check, MachineryError
 
+from . import arglist_shapes
+from .arglist_shapes import S, shape_rec, shape_key, shape_label
+
 CLASS_NAMES = ['base', 'clike', 'd']
-SPELL_F: T.Dict[str, T.List[str]] = {
-    'I': ['-Iinc{i}', '-I/abs/inc{i}', '-I../x{i}'],
-    'L': ['-Llib{i}', '-L/abs/lib{i}'],
-    'D': ['-DFOO{i}', '-DFOO{i}=1', '-UFOO{i}'],
-    'isys': ['-isystemsys{i}', '-isystem/opt/sys{i}'],
-    'l': ['-lfoo{i}'],
-    'wll': ['-Wl,-lfoo{i}'],
-    'lib': ['libfoo{i}.a', 'sub/libfoo{i}.so', 'libfoo{i}.so.1.2.3', 'foo{i}.a'],
-    'dll': ['foo{i}.dll', 'foo{i}.lib', 'libfoo{i}.dylib'],
-    'once': ['-pthread', '-pipe', '-c'],
-    'rpath': ['-Wl,-rpath,/r{i}'],
-    'plain': ['-O{i}', 'obj{i}.o', '-fopt{i}'],
-    'bareI': ['-I'],
-    'bareL': ['-L'],
-}
-ABS_F = {'lib': ['/opt/l/libbar{i}.a', '/opt/l/libbar{i}.so'], 'dll': ['/opt/b/foo{i}.dll'], 'plain': ['/opt/o/obj{i}.o']}
 _FRESH = itertools.count(1)
 _CLASSES: T.List[T.Any] = []
 
@@ -49,11 +36,14 @@ def classes() -> T.List[T.Any]:
 
 
 def render(words: T.List[T.Dict[str, T.Any]], rnd: random.Random) -> T.List[str]:
-    """fresh texts for the words of one case"""
+    """fresh texts for the words (shapes) of one case"""
     tag = next(_FRESH)
+    table = arglist_shapes.texts_of_shape()
     out = []
     for n, w in enumerate(words):
-        forms = ABS_F[w['f']] if w['ab'] else SPELL_F[w['f']]
+        forms = table.get(shape_key(w))
+        if not forms:
+            raise MachineryError('no text for the shape ' + repr(w))
         t = forms[rnd.randrange(len(forms))]
         if '{i}' not in t:
             t = forms[n % len(forms)]      # fixed spellings: the same word keeps its text
@@ -188,46 +178,56 @@ def _worker_enum(args: T.Tuple[T.Dict[str, T.Any], int, T.List[int], int]) -> T.
 
 
 def big_words() -> T.List[T.Dict[str, T.Any]]:
+    """every shape that has a text: two words of it when the text carries an id, one otherwise"""
     ws = []
-    for f in SPELL_F:
-        ws.append({'f': f, 'ab': 0})
-        if '{i}' in SPELL_F[f][0]:
-            ws.append({'f': f, 'ab': 0})
-    for f in ABS_F:
-        ws.append({'f': f, 'ab': 1})
+    for sh, forms in arglist_shapes.texts_of_shape().items():
+        ws.append(shape_rec(sh))
+        if '{i}' in forms[0]:
+            ws.append(shape_rec(sh))
     return ws
 
 
-def _rand_case(rnd: random.Random, nwords: int) -> T.Dict[str, T.Any]:
-    pool = [rnd.randrange(1, nwords + 1) for _ in range(rnd.randint(3, 10))]
+def _prepended_once(w: T.Dict[str, T.Any]) -> bool:
+    """-L<x>.a and the like: prepended AND once-only under the D tables (see the assumptions of the check)"""
+    return w['pfx'] == 'L' and w['bare'] == 0 and w['sfx'] in ('a', 'so', 'lib', 'dll', 'dylib', 'vso')
 
-    def batch(lo: int = 0) -> T.List[int]:
-        return [rnd.choice(pool) for _ in range(rnd.randint(lo, rnd.choice([1, 2, 3, 5])))]
+
+def _rand_case(rnd: random.Random, words: T.List[T.Dict[str, T.Any]]) -> T.Dict[str, T.Any]:
+    nwords = len(words)
+    multi = [j + 1 for j, w in enumerate(words) if arglist_shapes.multi_rule(shape_key(w))]
+    # a history concentrates on a few words; half of them are texts matched by several rules
+    pool = [rnd.choice(multi) if rnd.random() < 0.5 else rnd.randrange(1, nwords + 1) for _ in range(rnd.randint(3, 10))]
+    pool_d = [j for j in pool if not _prepended_once(words[j - 1])] or [1]
+
+    def batch(cls: int, lo: int = 0) -> T.List[int]:
+        return [rnd.choice(pool_d if cls == 3 else pool) for _ in range(rnd.randint(lo, rnd.choice([1, 2, 3, 5])))]
 
     cl = [rnd.randint(1, 3) for _ in range(rnd.randint(2, 3))]
     if len(set(cl)) == 1:
         cl[0] = cl[0] % 3 + 1
-    nobj = len(cl)
+    kinds = list(cl)
     ops = []
     for _ in range(rnd.randint(3, 30)):
         r = rnd.random()
-        o = rnd.randint(1, nobj)
+        o = rnd.randint(1, len(kinds))
+        c = kinds[o - 1]
         if r < 0.5:
-            ops.append({'k': 'iadd', 'o': o, 'b': batch(), 'i': 0})
+            ops.append({'k': 'iadd', 'o': o, 'b': batch(c), 'i': 0})
         elif r < 0.6:
-            ops.append({'k': 'xdirect', 'o': o, 'b': batch(), 'i': 0})
+            ops.append({'k': 'xdirect', 'o': o, 'b': batch(c), 'i': 0})
         elif r < 0.65:
-            ops.append({'k': 'insert', 'o': o, 'b': batch(1)[:1], 'i': rnd.choice([0, 1, -1, 99])})
+            ops.append({'k': 'insert', 'o': o, 'b': batch(c, 1)[:1], 'i': rnd.choice([0, 1, -1, 99])})
         elif r < 0.68:
-            ops.append({'k': 'remove', 'o': o, 'b': batch(1)[:1], 'i': 0})
+            ops.append({'k': 'remove', 'o': o, 'b': batch(c, 1)[:1], 'i': 0})
         elif r < 0.8:
             ops.append({'k': rnd.choice(['read', 'read', 'rev', 'len']), 'o': o, 'b': [], 'i': 0})
-        elif nobj < 6:
+        elif len(kinds) < 6:
             k = rnd.choice(['new', 'new', 'copy', 'add', 'radd'])
-            ops.append({'k': k, 'o': o if k != 'new' else 1, 'b': batch() if k != 'copy' else [], 'i': rnd.randint(1, 3) if k == 'new' else 0})
-            nobj += 1
+            nc = rnd.randint(1, 3) if k == 'new' else c
+            ops.append({'k': k, 'o': o if k != 'new' else 1, 'b': batch(nc) if k != 'copy' else [], 'i': nc if k == 'new' else 0})
+            kinds.append(nc)
         else:
-            ops.append({'k': 'iadd', 'o': o, 'b': batch(), 'i': 0})
+            ops.append({'k': 'iadd', 'o': o, 'b': batch(c), 'i': 0})
     return {'cl': cl, 'ops': ops, 'vseed': rnd.randrange(1 << 30)}
 
 
@@ -235,7 +235,7 @@ def _worker_rand(args: T.Tuple[int, int, int]) -> T.List[T.Dict[str, T.Any]]:
     lo, hi, sd = args
     common.use_repo_meson()
     words = big_words()
-    return [execute(_rand_case(random.Random(sd * 15485863 + j), len(words)), words) for j in range(lo, hi)]
+    return [execute(_rand_case(random.Random(sd * 15485863 + j), words), words) for j in range(lo, hi)]
 
 
 # ---------------------------------------------------------------------------
@@ -243,13 +243,34 @@ def _worker_rand(args: T.Tuple[int, int, int]) -> T.List[T.Dict[str, T.Any]]:
 def signature(c: T.Dict[str, T.Any], v: T.Dict[str, T.Any], words: T.List[T.Dict[str, T.Any]]) -> str:
     upto = min(v.get('step') or len(c['ops']), len(c['ops']))
     hist = ';'.join(f"{op['k']}{op['o']}" + (f"<{CLASS_NAMES[op['i'] - 1]}>" if op['k'] == 'new' else '') +
-                    '[' + ','.join(words[j - 1]['f'] + ('/' if words[j - 1]['ab'] else '') + str(j) for j in op['b']) + ']'
+                    '[' + ','.join(shape_label(words[j - 1]) + '#' + str(j) for j in op['b']) + ']'
                     for op in c['ops'][:upto])
     return f"{v['clause']}@classes=" + ','.join(CLASS_NAMES[k - 1] for k in c['cl']) + ':' + hist
 
 
+def repeat_signature(c: T.Dict[str, T.Any], v: T.Dict[str, T.Any], words: T.List[T.Dict[str, T.Any]]) -> T.Optional[str]:
+    """a shorter name for one kind of rejected trace of the directed family P: the list is exactly the expected one plus
+    further occurrences of a once-only word (the order of the expected members is unchanged)"""
+    exp, got = v.get('expected'), v.get('got')
+    if v['clause'] != 'ClassificationIsPerClass' or not isinstance(exp, list) or not isinstance(got, list) or len(c['cl']) != 1:
+        return None
+    surplus = [j for j in sorted(set(got)) if got.count(j) > exp.count(j)]
+    rest = list(got)
+    for j in surplus:
+        for _ in range(got.count(j) - exp.count(j)):
+            rest.reverse()
+            rest.remove(j)
+            rest.reverse()
+    if not surplus or rest != exp:
+        return None
+    if any(not 0 < j <= len(words) for j in surplus):
+        return None
+    return f"RepeatInOneBatchKept@class={CLASS_NAMES[c['cl'][0] - 1]}:" + ','.join(shape_label(words[j - 1]) for j in surplus)
+
+
 def judge(chk: Check, cases: T.List[T.Dict[str, T.Any]], words: T.List[T.Dict[str, T.Any]], cops: T.List[T.Dict[str, T.Any]],
-          label: str, tlc_part: T.Callable[[str, T.Union[int, str]], common.TLCResult]) -> None:
+          label: str, tlc_part: T.Callable[[str, T.Union[int, str]], common.TLCResult],
+          short: T.Optional[T.Callable[..., T.Optional[str]]] = None) -> None:
     from concurrent.futures import ThreadPoolExecutor
     keys = ('id', 'cl', 's', 'r', 'o') if cops else ('id', 'cl', 'ops', 'r', 'o')
     for n, c in enumerate(cases):
@@ -287,7 +308,7 @@ def judge(chk: Check, cases: T.List[T.Dict[str, T.Any]], words: T.List[T.Dict[st
             raise MachineryError('harness generated an operation on a missing object: ' + repr(v))
         if 'ops' not in c:
             c['ops'] = [cops[j - 1] for j in c['s']]
-        sig = signature(c, v, words)
+        sig = (short(c, v, words) if short is not None else None) or signature(c, v, words)
         if sig in seen:
             continue
         seen.add(sig)
@@ -298,10 +319,12 @@ def judge(chk: Check, cases: T.List[T.Dict[str, T.Any]], words: T.List[T.Dict[st
         ver = execute({'cl': c['cl'], 'ops': c['ops'], 'vseed': c['vseed']}, words, verbose=True)
         text = ver['text']
         chk.violation(sig, {'verdict': v, 'classes_case': {'cl': c['cl'], 'ops': c['ops'], 'vseed': c['vseed']}, 'words': words,
+                            'family': 'P' if short is not None else '',
                             'calls': ver['calls'], 'returned': ver['r'], 'final': ver['o'],
-                            'expected_words': [f"{words[j - 1]['f']}#{j}" if 0 < j <= len(words) else j for j in v.get('expected', [])]
+                            'expected_words': [f"{shape_label(words[j - 1])}#{j}" if 0 < j <= len(words) else j for j in v.get('expected', [])]
                             if v['clause'] == 'ClassificationIsPerClass' else v.get('expected'),
                             'note': 'texts are fresh per run; expected/got are word numbers', 'text_of_this_run': text})
+    arglist_shapes.fail_fast(chk)
     return None
 
 
@@ -309,9 +332,10 @@ def run(chk: Check, ex: T.Any, tlc_part: T.Callable[[str, T.Union[int, str]], co
     from .common import SPECS, run_tlc
     quick = chk.tier == 'quick'
     depth = 3
-    wordsel = [1, 2, 3, 4] if quick else [1, 2, 3, 4, 5]
+    wordsel = [1, 2, 10, 11] if quick else [1, 2, 3, 10, 11, 12]
     cfg = ('SPECIFICATION Spec\nCONSTANTS\n WordSel = {%s}\n MaxBatch = 1\n MaxDepth = %d\n OpKinds = {"iadd", "read"}\n'
-           'INVARIANT ClassificationIsPerClass\nINVARIANT ClassesDiffer\nCHECK_DEADLOCK FALSE\nPOSTCONDITION EmitSpace\n'
+           'INVARIANT ClassificationIsPerClass\nINVARIANT ClassesDiffer\nINVARIANT StatementLaterSettingWins\n'
+           'INVARIANT UnprefixedNeverMoved\nCHECK_DEADLOCK FALSE\nPOSTCONDITION EmitSpace\n'
            % (', '.join(map(str, wordsel)), depth if quick else depth + 1))
     res = run_tlc(SPECS / 'arglist', 'ArgListClasses_MC', cfg_text=cfg, collect=['cspace.json'], timeout=3000, allow_violation=False)
     chk.add_tlc('ArgListClasses_MC', res)
@@ -328,6 +352,17 @@ def run(chk: Check, ex: T.Any, tlc_part: T.Callable[[str, T.Union[int, str]], co
             chk.nontriv('K' + json.dumps([c['cl'], c['s']]))
     judge(chk, cases, cspace['words'], cspace['ops'], 'classes-A', tlc_part)
     dbg(f'classes A {len(cases)} cases')
+    # (P) directed: a once-only text mentioned twice inside ONE batch - dropped like a repeat across batches, whether the
+    # class appends it (library files, -l...) or puts it in front (-L<file>.a under the D tables)
+    pwords = [shape_rec(S('L', 'a')), shape_rec(S(sfx='a')), shape_rec(S('I')), shape_rec(S('l'))]
+    pcases = []
+    for c in (1, 2, 3):
+        for b in ([1, 1], [1, 3, 1], [2, 2], [2, 3, 2], [4, 4], [3, 1, 2, 4, 1, 2, 4]):
+            for tail in ([], [b[:1]]):
+                ops = [{'k': 'iadd', 'o': 1, 'b': b, 'i': 0}] + [{'k': 'iadd', 'o': 1, 'b': t, 'i': 0} for t in tail]
+                pcases.append(execute({'cl': [c], 'ops': ops, 'vseed': chk.seed * 7 + len(pcases)}, pwords))
+    judge(chk, pcases, pwords, [], 'classes-P', tlc_part, short=repeat_signature)
+    dbg(f'classes P {len(pcases)} cases')
     n_rand = 1500 if quick else 40000
     step = max(1, n_rand // (common.NCPU * 2))
     rcases: T.List[T.Dict[str, T.Any]] = []
@@ -347,4 +382,4 @@ def run(chk: Check, ex: T.Any, tlc_part: T.Callable[[str, T.Union[int, str]], co
 def replay(chk: Check, det: T.Dict[str, T.Any], tlc_part: T.Callable[[str, T.Union[int, str]], common.TLCResult]) -> None:
     common.use_repo_meson()
     c = execute(dict(det['classes_case']), det['words'])
-    judge(chk, [c], det['words'], [], 'replay-classes', tlc_part)
+    judge(chk, [c], det['words'], [], 'replay-classes', tlc_part, short=repeat_signature if det.get('family') == 'P' else None)
